@@ -932,8 +932,9 @@ def part_a(ctx):
     # included): simulated, thorough: additionally EVERY chunking of every text of <= 2 characters (one command)
     utf_behs = []
     gens = [ctx.tlc("Shell", "MC_Shell", "gen_utf.cfg",
-                    files={"gen_utf.cfg": _shell_cfg(2, True, True, ASIS, [], gen=True, statuses="{0}", shapes='{"utf", "utfl", "nonl"}',
-                                                     utf_len=2, utf_widths=UTF_WIDTHS)}, workers=1, count=False,
+                    files={"gen_utf.cfg": _shell_cfg(2, True, True, ASIS, [], gen=True, statuses="{0}",
+                                                     shapes=ctx.pick(UTF_SHAPES_Q, '{"utf", "utfl", "nonl"}'), utf_len=2,
+                                                     utf_widths=UTF_WIDTHS)}, workers=1, count=False,
                     simulate={"num": ctx.pick(400, 2000), "depth": 70}, timeout=3000)]
     if not ctx.quick:
         gens.append(ctx.tlc("Shell", "MC_Shell", "gen_utf_all.cfg",
